@@ -4,7 +4,7 @@ From TS Require Import Model.Str Model.Outcome Model.Unicode Model.Syntax Model.
                        Model.Lang.Common Model.Lang.Decl Model.Lang.ConvertCase
                        Model.Lang.TypeScript Model.Lang.Kotlin Model.Lang.Swift Model.Lang.Scala Model.Lang.Go Model.Lang.Python
                        Spec.Serde Spec.C02Spec.
-From TS Require Proofs.C02 Proofs.C02_TS Proofs.C02_KtSc Proofs.C02_Swift Proofs.C02_Go Proofs.C02_Py Proofs.C02_Witness.
+From TS Require Proofs.C02 Proofs.C02_TS Proofs.C02_KtSc Proofs.C02_Swift Proofs.C02_Go Proofs.C02_Py Proofs.C02_Witness Proofs.GoAcronyms.
 From TS Require Props.C02.
 
 Goal forall (uc : unicode), unicode_ok uc ->
@@ -68,6 +68,40 @@ Goal forall (uc : unicode) (cfg : go_config) custom e s ds s',
     (go_uppercase_acronyms cfg = [] -> c02_good_cases (flat_map go_obs ds) = true).
 Proof. exact Props.C02.C02_back_go_partial. Qed.
 Print Assumptions Props.C02.C02_back_go_partial.
+Goal forall (uc : unicode), unicode_ok uc ->
+  forall (acronyms : list str) (name : str),
+    forallb (forallb is_ascii) acronyms = true -> forallb is_ascii name = true ->
+    exists r, go_convert_acronyms_to_uppercase uc acronyms name = Ok r /\
+              List.length r = List.length name /\ str_upper_ascii r = str_upper_ascii name.
+Proof. exact Props.C02.C02_go_rewrite_case_only. Qed.
+Print Assumptions Props.C02.C02_go_rewrite_case_only.
+Goal forall (uc : unicode), unicode_ok uc ->
+  forall (cfg : go_config), forallb (forallb is_ascii) (go_uppercase_acronyms cfg) = true ->
+  forall custom e s ds s',
+    go_decl_of uc cfg custom (ItEnum e) s = Ok (ds, s') ->
+    dom_C02_back (c02_expect_ir e) = true ->
+    known_C02_back Go (match go_uppercase_acronyms cfg with [] => false | _ => true end) (c02_expect_ir e) = None ->
+    good_C02 Go (c02_expect_ir e) (flat_map go_obs ds) = true.
+Proof. exact Props.C02.C02_back_go. Qed.
+Print Assumptions Props.C02.C02_back_go.
+Goal forall (uc : unicode), unicode_ok uc ->
+  forall (acronyms : list str) (name : str),
+    forallb (forallb is_ascii) acronyms = true -> forallb is_ascii name = true ->
+    go_convert_acronyms_to_uppercase uc acronyms name = Ok (c02_go_rewrite acronyms name).
+Proof. exact Props.C02.C02_go_rewrite_is_model. Qed.
+Print Assumptions Props.C02.C02_go_rewrite_is_model.
+Goal forall acronyms x c, known_C02_back_go acronyms x = Some c -> known_C02_back Go true x = Some c.
+Proof. exact Props.C02.C02_go_exact_in_class. Qed.
+Print Assumptions Props.C02.C02_go_exact_in_class.
+Goal forall (uc : unicode), unicode_ok uc ->
+  forall (cfg : go_config), forallb (forallb is_ascii) (go_uppercase_acronyms cfg) = true ->
+  forall custom e s ds s',
+    go_decl_of uc cfg custom (ItEnum e) s = Ok (ds, s') ->
+    dom_C02_back (c02_expect_ir e) = true ->
+    (good_C02 Go (c02_expect_ir e) (flat_map go_obs ds) = true <->
+     known_C02_back_go (go_uppercase_acronyms cfg) (c02_expect_ir e) = None).
+Proof. exact Props.C02.C02_back_go_exact. Qed.
+Print Assumptions Props.C02.C02_back_go_exact.
 Goal forall (uc : unicode), unicode_ok uc ->
   forall s, forallb is_ascii s = true -> str_to_uppercase uc (cc_to_snake uc s) = c02_py_key s.
 Proof. exact Props.C02.C02_py_key_is_convert_case. Qed.
